@@ -8,8 +8,8 @@ from ..ops import *
 from .c04 import judge
 
 IMPORTS = ('From OFV Require Import Base.Cplx Base.Mat Sem.FermiSem Model.SymbolicOp Model.LadderOp Model.SwapNetwork Check.MatrixOf.\n')
-NEEDS = ['Thm/C14/SwapNetworkB', 'Check/MatrixOf']
-LEVEL = 'translation_validation'
+NEEDS = ['Thm/C14/SwapNetworkB', 'Thm/C14/SwapNetworkF', 'Check/MatrixOf']
+LEVEL = 'proof'
 def cmat(M): return '(' + clist(['(' + clist([cC(complex(x)) for x in r]) + ' : vec)' for r in np.asarray(M).tolist()]) + ' : mat)'
 
 I2 = np.eye(2); X = np.array([[0, 1], [1, 0]], dtype=complex); Y = np.array([[0, -1j], [1j, 0]]); Z = np.diag([1.0, -1.0]).astype(complex)
